@@ -186,12 +186,13 @@ class FaultyStream:
 
 # the encoder bracket ---------------------------------------------------------
 
-_enc = {'installed': False, 'ctl': None, 'plan': None, 'on_return': None}
+_enc = {'installed': False, 'ctl': None, 'plan': None, 'on_return': None,
+        'on_enter': None}
 
 
 def new_ctl():
     return {'writes': 0, 'bytes': 0, 'fired': None, 'fired_at': None,
-            'entered': 0, 'returned': 0, 'stream_kind': None}
+            'entered': 0, 'returned': 0, 'stream_kind': None, 'calls': []}
 
 
 def install_encoder_bracket():
@@ -212,9 +213,18 @@ def install_encoder_bracket():
                 return orig(klass, game, outstr, *args, **kwargs)
             ctl['entered'] += 1
             ctl['stream_kind'] = type(outstr).__name__
+            cb = _enc['on_enter']
+            if cb is not None:
+                cb()
+            fname = kwargs.get('filename')
+            if fname is None and len(args) >= 3:
+                fname = args[2]
+            call = [fname, False]
+            ctl['calls'].append(call)
             proxy = FaultyStream(outstr, _enc['plan'], ctl)
             r = orig(klass, game, proxy, *args, **kwargs)
             ctl['returned'] += 1
+            call[1] = True
             cb = _enc['on_return']
             if cb is not None:
                 cb()
@@ -229,34 +239,44 @@ def install_encoder_bracket():
 class EncoderRun:
     """Context manager activating the encoder bracket for one operation."""
 
-    def __init__(self, write_plan=None, on_return=None):
+    def __init__(self, write_plan=None, on_return=None, on_enter=None):
         self.ctl = new_ctl()
         self.write_plan = write_plan
         self.on_return = on_return
+        self.on_enter = on_enter
 
     def __enter__(self):
         install_encoder_bracket()
         _enc['ctl'] = self.ctl
         _enc['plan'] = self.write_plan
         _enc['on_return'] = self.on_return
+        _enc['on_enter'] = self.on_enter
         return self.ctl
 
     def __exit__(self, *a):
         _enc['ctl'] = None
         _enc['plan'] = None
         _enc['on_return'] = None
+        _enc['on_enter'] = None
         return False
 
 
 # ---------------------------------------------------------------------------
 # the world
 
+_RUN_COUNTER = [0]
+
+
 class World:
     """A fresh store directory + environment for one simulated run."""
 
     def __init__(self, env=None, cwd=None, recursion=None):
         self.base = core.world_root()
-        self.root = os.path.join(self.base, 'run')
+        # a fresh directory name per run: path-keyed state inside picotool
+        # (should a change introduce any) cannot leak from one run to the next
+        # through a reused path; all logging is $ROOT-relative
+        _RUN_COUNTER[0] += 1
+        self.root = os.path.join(self.base, 'r%d' % _RUN_COUNTER[0])
         self.env = env or {}
         self.cwd = cwd
         self.recursion = recursion
